@@ -118,6 +118,26 @@ func c13Format(g *guid.GUID, f string) string {
 	return g.ToFormatX()
 }
 
+// c13NearMisses: one-edit corruptions of a valid GUID text (a non-hex letter in the first, a middle and the last hex position,
+// a sign, an embedded blank, a missing and an extra trailing digit).
+func c13NearMisses(txt string) []string {
+	var hexAt []int
+	for i := 0; i < len(txt); i++ {
+		ch := txt[i]
+		if (ch >= '0' && ch <= '9') || (ch >= 'a' && ch <= 'f') || (ch >= 'A' && ch <= 'F') {
+			if !(ch == '0' && i+1 < len(txt) && (txt[i+1] == 'x' || txt[i+1] == 'X')) {
+				hexAt = append(hexAt, i)
+			}
+		}
+	}
+	if len(hexAt) < 8 {
+		return nil
+	}
+	rep := func(i int, b byte) string { return txt[:i] + string(b) + txt[i+1:] }
+	first, mid, last := hexAt[0], hexAt[len(hexAt)/2], hexAt[len(hexAt)-1]
+	return []string{rep(last, 'g'), rep(mid, 'G'), rep(first, 'z'), rep(first, '-'), rep(mid, ' '), txt[:last] + txt[last+1:], txt[:last+1] + "0" + txt[last+1:]}
+}
+
 func c13Parse(f, s string) (*guid.GUID, error) {
 	switch f {
 	case "N":
@@ -226,6 +246,34 @@ func c13GuidCase(c *h.Ctx, k *c13Case) {
 	for _, tv := range k.TV {
 		txt := c13Str(tv.T)
 		tsmp := map[string]interface{}{"guid": canon, "format": tv.Fmt, "text": txt}
+		// near misses of this text: "for every value a parser accepts, formatting it again reproduces the input" -- a
+		// malformed text is either refused or, if the parser takes it, comes back unchanged (case-insensitively)
+		for _, bad := range c13NearMisses(txt) {
+			for _, via := range []string{"FromFormat" + tv.Fmt, "FromString"} {
+				var pg *guid.GUID
+				var err error
+				if p := h.Guard(func() {
+					if via == "FromString" {
+						pg, err = guid.FromString(bad)
+					} else {
+						pg, err = c13Parse(tv.Fmt, bad)
+					}
+				}); p != "" || err != nil || pg == nil {
+					continue // refused (a panic is C07's business)
+				}
+				c.Exec(1)
+				back := ""
+				for _, f2 := range c13Formats {
+					if out := c13Format(pg, f2); strings.EqualFold(out, bad) {
+						back = out
+					}
+				}
+				if back == "" {
+					c.Fail("guid."+via, "accepts-malformed-text", fmt.Sprintf("%q is accepted without error but no format of the parsed value reproduces it (format %s gives %q)", bad, tv.Fmt, c13Format(pg, tv.Fmt)),
+						map[string]interface{}{"guid": canon, "format": tv.Fmt, "malformed_text": bad})
+				}
+			}
+		}
 		for _, via := range []string{"FromFormat" + tv.Fmt, "FromString"} {
 			site, pre := "guid."+via, ""
 			if via == "FromString" {
